@@ -1,6 +1,6 @@
 """C05 - a walk returns the whole subtree, in order, once - by GetNext or GetBulk.
 
-Mibs.tla (TLC) enumerates every MIB over a 7-name universe (multi-octet arcs, nested subtrees, entries before and
+Mibs.tla (TLC) enumerates every MIB over a 9-name universe (multi-octet arcs, nested subtrees, entries before and
 after the subtree) x 7 base OIDs and computes the list a correct walk must yield.  An honest RFC 3416 agent
 (GetNext, GetBulk with any max-repetitions and agent-side cap, endOfMibView / v1 noSuchName at the end) serves
 each MIB to the REAL SnmpSession iterators (getnext, getbulk, fetch; sync and async; v1, v2c, v3).  The recorded
@@ -45,7 +45,8 @@ async def run_async(rec, cfg, items, thorough):
                 continue
             state["resp"] = walks.honest_responder(agent, api.cfgref, e["mib"], cap)
             real_op = "getnext" if (cfg.ver == "v1") else op
-            await walks.walk_async(api, real_op, bytes(e["basetext"]).decode(), m if real_op == "getbulk" else None, honest=True, mib=e["mib"], fetch=fetch)
+            await walks.walk_async(api, real_op, bytes(e["basetext"]).decode(), m if real_op == "getbulk" else None, honest=True, mib=e["mib"], fetch=fetch,
+                                   style=walks.STYLES[(len(e["mib"]) + len(e["base"]) + (m or 0)) % 4])
         api.close()
         runs.append((a, rec.n, dict(kind="async", ver=cfg.ver, entry=e)))
     return runs
@@ -145,7 +146,8 @@ def run_sync(rec, cfg, items, thorough):
                 continue
             state["resp"] = walks.honest_responder(agent, api.cfgref, e["mib"], cap)
             real_op = "getnext" if (cfg.ver == "v1") else op
-            walks.walk_sync(api, real_op, bytes(e["basetext"]).decode(), m if real_op == "getbulk" else None, honest=True, mib=e["mib"], fetch=fetch)
+            walks.walk_sync(api, real_op, bytes(e["basetext"]).decode(), m if real_op == "getbulk" else None, honest=True, mib=e["mib"], fetch=fetch,
+                            style=walks.STYLES[(len(e["mib"]) + len(e["base"]) + (m or 0) + 1) % 4])
         api.close()
         runs.append((a, rec.n, dict(kind="sync", ver=cfg.ver, entry=e)))
     return runs
@@ -165,21 +167,21 @@ def run(tier):
     if res:
         chk.add_tlc(res, "Mibs.tla")
     entries = [t for t in table if "mib" in t]
-    if len(entries) < 2000:
+    if len(entries) < 4000:
         raise ToolError("MIB table incomplete")
     std = scripts.std_cfgs()
     rec = trace.Recorder("c05")
     runs = []
     idx = list(enumerate(entries))
     # async v2c: everything; other combinations sampled (quick) or complete (thorough)
-    runs += asyncio.run(run_async(rec, std["v2c"], idx if thorough else [x for x in idx if (x[0] + SEED) % 2 == 0], thorough))
+    runs += asyncio.run(run_async(rec, std["v2c"], idx if thorough else [x for x in idx if (x[0] + SEED) % 3 == 0], thorough))
     samp = lambda n, off: [x for x in idx if thorough or (x[0] + off + SEED) % n == 0]
-    runs += run_sync(rec, std["v2c"], samp(6, 0), thorough)
-    runs += run_sync(rec, std["v1"], samp(12, 1), thorough)
-    runs += asyncio.run(run_async(rec, std["v1"], samp(12, 2), thorough))
-    runs += asyncio.run(run_async(rec, std["v3-md5-aes"], samp(12, 3), thorough))
-    runs += run_sync(rec, std["v3-sha1-des"], samp(16, 4), thorough)
-    runs += asyncio.run(run_async(rec, std["v3-noauth"], samp(16, 5), thorough))
+    runs += run_sync(rec, std["v2c"], samp(9, 0), thorough)
+    runs += run_sync(rec, std["v1"], samp(20, 1), thorough)
+    runs += asyncio.run(run_async(rec, std["v1"], samp(20, 2), thorough))
+    runs += asyncio.run(run_async(rec, std["v3-md5-aes"], samp(20, 3), thorough))
+    runs += run_sync(rec, std["v3-sha1-des"], samp(28, 4), thorough)
+    runs += asyncio.run(run_async(rec, std["v3-noauth"], samp(28, 5), thorough))
     # several walks alive in one process: abandoned / nested / interleaved, on one session or two (each walk its own trace session)
     runs += multi_runs(rec, thorough)
     rec.close()
